@@ -2,6 +2,7 @@
 From Coq Require Import NArith List Bool.
 From V Require Import U64 Extracted Ledger LedgerCheck LedgerHistory LedgerBlock.
 From V Require LedgerConservation LedgerStaking LedgerBlockProofs.
+From V Require Evidence EvidenceProofs.
 Import ListNotations.
 Local Open Scope N_scope.
 Module LC := LedgerConservation.
@@ -58,3 +59,10 @@ Print Assumptions C12_rewards_never_fail.
 Theorem C12_whole_blocks_never_wedge : forall ops s, LInv s -> LB.bhist_ok ops s -> exists s', LB.brun ops s = LOk s'.
 Proof. exact LB.block_history_never_fails. Qed.
 Print Assumptions C12_whole_blocks_never_wedge.
+
+(* "The chain never wedges itself", the begin-block part: the double-signer list of the chain's own last certificate is executed from
+   the committed block and is never refused, whatever a transaction of that block has indexed in the meantime (see C14). *)
+Theorem C12_own_certificate_never_wedges : forall (ds : list (N * list N)) (index : list (N * N)),
+  (forall d, In d ds -> snd d <> []) -> NoDup (EvidenceProofs.pairs ds) ->
+  exists index' out, Evidence.handle_own_double_signers ds index = Some (index', out).
+Proof. exact EvidenceProofs.own_never_refused. Qed.
